@@ -135,8 +135,8 @@ BULK_RULE = ('one run = 2-24 bulk operations (memset, memcpy from application me
              'or straddling from the canary page into the region; faults: grant/deny refused, sandbox allocator null or straddling, host malloc null; the footprint is a byte-wise '
              'diff of both regions, the canary pages around them and the application arena, and in 1/6 of the runs the trap-MMU read/write set of the target region; '
              'expected outcome (must proceed / must abort / either) from the simulator\'s own region table; non-trivial = fault fired or probe hit; distinct = event-log hashes')
-BULK_WORLD = dict(world='bulk', variants=['plain', 'asan'], quick=dict(count=96000, time_limit=90, variant_share={'plain': 0.8, 'asan': 0.2}),
-                  thorough=dict(count=4000000, time_limit=900, variant_share={'plain': 0.8, 'asan': 0.2}))
+BULK_WORLD = dict(world='bulk', variants=['plain', 'nogrant', 'asan'], quick=dict(count=120000, time_limit=90, variant_share={'plain': 0.6, 'nogrant': 0.2, 'asan': 0.2}),
+                  thorough=dict(count=4000000, time_limit=900, variant_share={'plain': 0.6, 'nogrant': 0.2, 'asan': 0.2}))
 PROPS.update({
     'C10': dict(level='exploration', worlds=[BULK_WORLD, dict(TOCTOU_WORLD, quick=dict(TOCTOU_WORLD['quick'], count=4000))], rule=BULK_RULE,
                 components=dict(real_code=COMPONENTS_SIM['real_code'],
@@ -199,3 +199,9 @@ for _w in PROPS['C13']['worlds']:
 PROPS['C13']['worlds'] = [w for w in PROPS['C13']['worlds'] if w != 'TH_FOR_C13'] + [dict(TH_WORLD, quick=dict(TH_WORLD['quick'], count=30000))]
 PROPS['C13']['expect_probes'] = PROPS['C13']['expect_probes'] + ['registration_on_shared_sandbox', 'shared_sandbox_registrations_from_several_threads']
 PROPS['C13']['assumptions'] = PROPS['C13']['assumptions'] + ['same-instance concurrency is exercised for callback registration/unregistration only (the part of a sandbox object RLBox guards with callback_lock); everything else is single-threaded per instance as RLBOX_SINGLE_THREADED_INVOCATIONS demands']
+
+# C12 also uses the transition world: aborts unwinding through nested crossings (and caught by an outer callback) are generated there,
+# and every callback body checks the sandbox reference it receives
+PROPS['C12']['worlds'] = PROPS['C12']['worlds'] + [dict(world='transition', variants=['both'], quick=dict(count=40000, time_limit=60, enumerate=True),
+                                                         thorough=dict(count=2000000, time_limit=600, enumerate=True))]
+PROPS['C12']['expect_probes'] = PROPS['C12']['expect_probes'] + ['inner_abort_caught_by_outer_callback']
